@@ -181,6 +181,9 @@ func checkC10(c *runCtx) {
 	}
 	// overlapping Close calls on a live agent with a task in flight: whichever returns, the loop has finished
 	csExplore(c, "api-close-vs-close", b, dl, nil)
+	// application data on a candidate's socket while Restart / Close removes that candidate inside a task
+	csExplore(c, "api-restart-vs-data", b+1, dl, nil)
+	csExplore(c, "api-close-vs-data", b+1, dl, nil)
 	// two concurrent starts: exactly one wins, the other is refused, and the agent is what the winner made it
 	csExplore(c, "api-start-vs-start", b, dl, nil)
 	// the gathering paths (GatherCandidates, the gather goroutines, Restart cancelling them) under the same discipline
